@@ -53,8 +53,14 @@ def main():
         report[prop] = {"digest_comparisons": n, "diverged": len(diverged)}
         print(f"{prop}: {n} digest comparisons across worker counts {[c[0] for c in CONFIGS]} and PYTHONHASHSEEDs {[c[1] for c in CONFIGS]}: {len(diverged)} diverged {diverged[:5]}")
         bad += len(diverged)
-    with open(os.path.join(VERIF, "SELFTEST_DETERMINISM.json"), "w") as f:
-        json.dump(report, f, indent=1, sort_keys=True)
+    path = os.path.join(VERIF, "SELFTEST_DETERMINISM.json")
+    merged = {}
+    if os.path.exists(path):
+        with open(path) as f:
+            merged = json.load(f)
+    merged.update(report)
+    with open(path, "w") as f:
+        json.dump(merged, f, indent=1, sort_keys=True)
     return 1 if bad else 0
 
 
